@@ -1,6 +1,7 @@
 package xy
 
 import (
+	"math/big"
 	"sort"
 
 	"github.com/twpayne/go-geom"
@@ -26,15 +27,49 @@ func NewRadialSorting(layout geom.Layout, coordData []float64, focalPoint geom.C
 			return true
 		}
 
-		dxp := v1[0] - focalPoint[0]
-		dyp := v1[1] - focalPoint[1]
-		dxq := v2[0] - focalPoint[0]
-		dyq := v2[1] - focalPoint[1]
-
 		// points are collinear - check distance
-		op := dxp*dxp + dyp*dyp
-		oq := dxq*dxq + dyq*dyq
-		return op < oq
+		return isNearer(focalPoint, v1, v2)
 	}
 	return sorting.NewFlatCoordSorting(layout, coordData, isLess)
+}
+
+// isNearer returns whether v1 is strictly nearer to focalPoint than v2, for v1
+// and v2 collinear with focalPoint. Along a line, distances from focalPoint are
+// ordered like the absolute x offsets (like the y offsets if the line is
+// vertical), which are compared without rounding: a rounded sum of squared
+// rounded offsets ties, or underflows, for distinct collinear points, and the
+// Graham scan then keeps collinear points on the hull.
+func isNearer(focalPoint, v1, v2 []float64) bool {
+	dim := 0
+	if v1[0] == focalPoint[0] && v2[0] == focalPoint[0] {
+		dim = 1
+	}
+	return cmpAbsDiff(v1[dim], v2[dim], focalPoint[dim]) < 0
+}
+
+// cmpAbsDiff compares |a-f| with |b-f| exactly.
+func cmpAbsDiff(a, b, f float64) int {
+	if (a >= f) == (b >= f) {
+		// a and b are on the same side of f: compare them with each other.
+		switch {
+		case a == b:
+			return 0
+		case (a < b) == (a >= f):
+			return -1
+		default:
+			return 1
+		}
+	}
+	// a and b are on opposite sides of f: compare a+b with 2f. 2100 bits hold
+	// the sum of any two float64 values exactly.
+	var sum, twoF, tmp big.Float
+	sum.SetPrec(2100).SetFloat64(a)
+	sum.Add(&sum, tmp.SetFloat64(b))
+	twoF.SetPrec(2100).SetFloat64(f)
+	twoF.Add(&twoF, &twoF)
+	c := sum.Cmp(&twoF)
+	if a < f {
+		c = -c
+	}
+	return c
 }
